@@ -136,6 +136,13 @@ func genC08(t *rapid.T) C08Case {
 			}
 		}
 	}
+	if c.Mode == "format" && n >= 2 && rapid.IntRange(0, 2).Draw(t, "unbalanced") == 0 {
+		// a file that format cannot process (one end marker too many): the other files must still be formatted
+		i := rapid.IntRange(0, n-1).Draw(t, "unbalancedfile")
+		c.Asms[i].Main = append(c.Asms[i].Main, ragen.Line{K: ragen.KEnd})
+		c.Asms[i].Bad = true
+		lab["file-format-cannot-process"] = true
+	}
 	lab["mode:"+c.Mode] = true
 	lab[fmt.Sprintf("files:%d", n)] = true
 	c.Lab = labelsOf(lab)
